@@ -946,6 +946,14 @@ def must_started(ctx, body, P, sid, depth=0, seen=None):
                     return True, started + " (in a loop paired by count with the join loop)"
             continue
         if not dom:
+            # a helper that spawns, called in a loop whose header dominates P (`for .. { spawn_updater(..) }`): paired by count
+            if c in ctx.facts.bodies and ctx.facts.bodies[c].crate == "nomt" and c not in (strands_mod.SPAWN, strands_mod.JOIN):
+                for (h, blk, lat) in loops:
+                    if b in blk and (P == "ret" or P not in blk) and dominates_P(h):
+                        ok, why = must_started(ctx, ctx.facts.bodies[c], "ret", sid, depth + 1, seen)
+                        if ok:
+                            m.note_count(body, b, sid)
+                            return True, "%s via %s at %s (in a loop paired by count with the join loop)" % (why, short(c), t.get("ln"))
             continue
         if c == strands_mod.JOIN and m.checked_before(body, b, P):
             j = m.join_at.get((body.id, b))
@@ -985,12 +993,42 @@ def must_started(ctx, body, P, sid, depth=0, seen=None):
 # join sites whose guarantee is an object typestate or a correlated match, which this analysis cannot
 # see (one line of reason each); everything else is decided.
 R5_NOT_DECIDED = {
-    "nomt::merkle::Updater::update_and_prove": "the WarmUpHandle holding the receiver only exists after spawn_warm_up spawned the task (handle existence implies spawn)",
-    "nomt::merkle::UpdateHandle::join": "the UpdateHandle is built by update_and_prove after all updaters were spawned (handle existence implies spawn)",
     "nomt::rollback::SyncController::wait_post_meta": "post_meta and wait_post_meta are called under two `if let Some(rollback_sync)` matches on the same unmodified Option (correlated branches)",
-    "nomt::rollback::ReverseDeltaBuilder::finalize": "the builder only exists after reverse_delta_worker::start spawned the worker (handle existence implies spawn)",
-    "<nomt::rollback::ReverseDeltaBuilder as core::ops::drop::Drop>::drop": "same as finalize",
 }
+
+
+def handle_implies_spawn(ctx, body, b, sid):
+    """the receiver joined at block b lives in a field of a handle struct, and every construction of that struct happens
+    after the matching spawn: holding the handle implies the task was started (typestate by construction)"""
+    t = body.term(b)
+    owners = []
+    for r in trace(body, t["args"][0]):
+        if r.kind in ("param", "upvar") and r.path:
+            # the struct that directly holds the receiver: the owner of the LAST field of the access path
+            for (f, o) in reversed(r.path):
+                if o.startswith("nomt::") and o in ctx.facts.adts:
+                    owners.append((o, f))
+                    break
+    if not owners:
+        return False, "the receiver is not held in a handle struct"
+    whys = []
+    for (adt, f) in sorted(set(owners)):
+        sites = []
+        for cb_ in ctx.facts.bodies.values():
+            if cb_.crate != "nomt" or "::tests::" in cb_.id:
+                continue
+            for bb in range(cb_.n):
+                for st in cb_.stmts(bb):
+                    if st["k"] == "assign" and st["rv"]["k"] == "agg" and st["rv"].get("name") == adt and not cb_.is_cleanup(bb):
+                        sites.append((cb_, bb, st.get("ln")))
+        if not sites:
+            return False, "no construction of %s found" % adt
+        for (cb_, bb, ln) in sites:
+            ok, why = must_started(ctx, cb_, bb, sid)
+            if not ok:
+                return False, "%s is constructed at %s where the task need not have been spawned (%s)" % (adt.split("::")[-1], ln, why)
+            whys.append("%s built at %s after %s" % (adt.split("::")[-1], ln, why))
+    return True, "handle existence implies spawn: " + "; ".join(whys[:2])
 
 
 def r5(ctx, rep):
@@ -1019,6 +1057,10 @@ def r5(ctx, rep):
                 continue
             n += 1
             ok, why = must_started(ctx, body, b, sid)
+            if not ok and sid[0] == "task":
+                ok2, why2 = handle_implies_spawn(ctx, body, b, sid)
+                if ok2:
+                    ok, why = True, why2
             rep.check(ok, "R5", short(body.id), what.split("(")[0] + "|" + (sid[2] if sid[0] == "fsync" else sorted(sid[1])[0][0].split("::", 1)[1]), "%s at %s can be reached on a success path on which the matching request/spawn never happened: the caller would block forever (%s)" % (what, t.get("ln"), why), site=t.get("ln"), detail="%s at %s: %s" % (what, t.get("ln"), why))
     return n
 
